@@ -5,6 +5,7 @@
 REV=""
 if [ "$1" = "-R" ]; then REV="-R"; shift; fi
 PATCH="$1"; shift
+[ -f "$PATCH" ] && PATCH="$(realpath "$PATCH")"
 SCRATCH=$(mktemp -d "${TMPDIR:-/tmp}/dimarray-scratch.XXXXXX")
 trap 'rm -rf "$SCRATCH"' EXIT
 mkdir -p "$SCRATCH/repo"
